@@ -89,9 +89,21 @@ def _r1(ctx, repo):
                    construct="result returned unchanged", msg=f"the result of the Python callable is post-processed before it is returned: {src(v)[:80]}")
         # klong is passed first iff requested, then exactly the collected positional args
         for c in sites:
-            pos = [a for a in c.args]
-            star = [a for a in pos if isinstance(a, ast.Starred)]
-            ok = len(star) == 1 and isinstance(star[0].value, ast.Name) and (len(pos) == 1 or (len(pos) == 2 and isinstance(pos[0], ast.Name) and pos[0].id == "klong" and pos[1] is star[0]))
+            args_ = [a for a in c.args]
+            star = [a for a in args_ if isinstance(a, ast.Starred) and isinstance(a.value, ast.Name)]
+
+            def _lead(a):
+                """the interpreter, or `*((klong,) if self._provide_klong else ())`"""
+                if isinstance(a, ast.Name) and a.id == "klong":
+                    return True
+                if isinstance(a, ast.Starred) and isinstance(a.value, ast.IfExp):
+                    t, b, o = a.value.test, a.value.body, a.value.orelse
+                    if isinstance(t, ast.UnaryOp) and isinstance(t.op, ast.Not):
+                        t, b, o = t.operand, o, b
+                    one = isinstance(b, ast.Tuple) and len(b.elts) == 1 and isinstance(b.elts[0], ast.Name) and b.elts[0].id == "klong"
+                    return one and isinstance(o, ast.Tuple) and not o.elts and dotted(t) == "self._provide_klong"
+                return False
+            ok = len(star) == 1 and (len(args_) == 1 or (len(args_) == 2 and _lead(args_[0]) and args_[1] is star[0]))
             ctx.ob("C09-R1", fq, "the callable receives (klong,)? followed by exactly the collected positional arguments", ok, node=c, construct=f"argument list {src(c)[:60]}")
     # canonical order of the collected arguments
     init = repo.fn("types:KGLambda.__init__")
@@ -117,20 +129,25 @@ def _r1(ctx, repo):
                    construct="argument order is x,y,z", msg="arguments are collected in the callable's declared parameter order: fn(y, x) receives the first Klong argument as y")
     gp = repo.fn("types:KGLambda._get_pos_args")
     ctx.instance("C09-R1", gp.fq)
-    rets = [n for n in walk_local(gp.node) if isinstance(n, ast.Return)]
-    comps = [n for n in walk_local(gp.node) if isinstance(n, ast.ListComp) and isinstance(n.generators[0].iter, ast.Attribute) and dotted(n.generators[0].iter) == "self.args"]
+    # the function serves two modes; the rule is about the non-wildcard one: partially evaluate on self._wildcard == False
+    from ..specialize import specialise
+    gnode, why = specialise(gp, {"self._wildcard": False})
+    if gnode is None:
+        ctx.error(f"C09-R1: cannot specialise {gp.fq} on the wildcard flag: {why}")
+        return
+    comps = [n for n in walk_local(gnode) if isinstance(n, ast.ListComp) and len(n.generators) == 1 and not n.generators[0].ifs and dotted(n.generators[0].iter) == "self.args"]
+    from ..flow import return_alts
+    alts = [a for _f, a, _r in return_alts(gnode)]
     # that comprehension is what a non-wildcard collection returns (directly or through one local)
-    def _flows(comp):
-        for r in rets:
-            if r.value is comp:
-                return True
-            if isinstance(r.value, ast.Name) and any(isinstance(a, ast.Assign) and a.value is comp and any(isinstance(t, ast.Name) and t.id == r.value.id for t in a.targets)
-                                                     for a in walk_local(gp.node)):
-                return True
-        return False
-    ok = bool(rets) and any(_flows(c) for c in comps)
-    ctx.ob("C09-R1", gp.fq, "non-wildcard collection reads exactly ctx[x] for x in self.args, in order", ok and len(comps) == 1 and
-           isinstance(comps[0].elt, ast.Subscript) and isinstance(comps[0].elt.slice, ast.Name) and comps[0].elt.slice.id == comps[0].generators[0].target.id,
+    def _flows(comp, a):
+        if a is comp:
+            return True
+        return isinstance(a, ast.Name) and any(isinstance(d, ast.Assign) and d.value is comp and any(isinstance(t, ast.Name) and t.id == a.id for t in d.targets) for d in walk_local(gnode)) and \
+            sum(1 for d in walk_local(gnode) if isinstance(d, ast.Name) and d.id == a.id and isinstance(d.ctx, ast.Store)) == 1
+    ok = bool(alts) and len(comps) == 1 and all(_flows(comps[0], a) for a in alts)
+    ctx.ob("C09-R1", gp.fq, "non-wildcard collection reads exactly ctx[x] for x in self.args, in order", ok and
+           isinstance(comps[0].elt, ast.Subscript) and isinstance(comps[0].elt.slice, ast.Name) and comps[0].elt.slice.id == comps[0].generators[0].target.id and
+           isinstance(comps[0].elt.value, ast.Name) and comps[0].elt.value.id in gp.params(),
            node=gp.node, construct="ctx[x] for x in self.args")
 
 
